@@ -188,6 +188,9 @@ func (p c02) Run(w *mon.Worker, idx int) mon.Result {
 	if idx%60 == 33 {
 		return c02AlikeSubtract(r)
 	}
+	if idx%30 == 17 {
+		return c02CreatedThenOp(r)
+	}
 	pr := gen.Default()
 	pr.NoBigInt, pr.SmallInts = true, true
 	pr.MaxDepth = 2 + r.IntN(3)
